@@ -17,6 +17,7 @@ CONSTANTS
   Weak_NoCentre = FALSE
   Weak_TieHighAddr = TRUE
   Weak_FloorDiv = FALSE
+  Weak_RoundSkipSingleIncrement = FALSE
 INIT CaseInit
 NEXT CaseNext
 INVARIANTS RotationMatchesRef Fair ComposesWhenFresh Proportional RotationWindow
